@@ -19,6 +19,7 @@ import (
 // payloads, travelling as attacker transactions, real x/gov proposals (submit + vote, executed when the simulated
 // voting period ends) and direct handler calls.
 type govWorld struct {
+	OddNames   bool     // governance payloads may carry names that are not valid UTF-8
 	Voter      string   // the genesis delegator (holds all bonded stake)
 	Attackers  []string // other clients
 	DistCfg    DistGenCfg
@@ -178,6 +179,10 @@ func (g *govWorld) distUpdate(r *kernel.Run, rng *kernel.Rng, authority string) 
 		np, err := GenDistParams(rng, g.DistCfg)
 		if err != nil {
 			return nil
+		}
+		if g.OddNames && len(np.SubDistributors) > 0 && rng.Intn(12) == 0 {
+			// a name that is not valid UTF-8 (fine on the wire, not in the JSON genesis)
+			np.SubDistributors[0].Name += "\xff"
 		}
 		return &disttypes.MsgUpdateParams{Authority: authority, SubDistributors: np.SubDistributors}
 	case 1:
